@@ -60,6 +60,37 @@ def gen_case(rng, max_len, intervals=False, p=None):
     if rng.random() < 0.3:
         # repeated residues carrying different modifications
         a._sequence = ''.join(rng.choice(a._sequence[:2]) for _ in a._sequence)
+    return with_history(a, rng)
+
+
+def with_history(a, rng):
+    """the same kind of annotation after a history of ordinary API calls: the insertion order of the internal-mod dict is
+    then no longer the position order (reverse() and shift() fill the new dict while walking the old one, add_internal_mod
+    appends), which no observable behaviour may depend on"""
+    r = rng.random()
+    n = len(a)
+    if r < 0.2:
+        a = a.reverse()
+    elif r < 0.35 and n > 0:
+        a = a.shift(rng.randint(0, n + 1))
+    elif r < 0.45 and n > 0:
+        a = a.reverse().shift(rng.randint(1, n))
+    elif r < 0.6 and a._internal_mods:
+        # rebuilt through the API back to front / in random order
+        items = list(a._internal_mods.items())
+        if rng.random() < 0.5:
+            items.reverse()
+        else:
+            rng.shuffle(items)
+        a._internal_mods = None
+        for k, v in items:
+            a.add_internal_mod(k, v, append=rng.random() < 0.5)
+    elif r < 0.7 and a._internal_mods:
+        items = list(a._internal_mods.items())
+        rng.shuffle(items)
+        a._internal_mods = dict(items)
+    if a._internal_mods and list(a._internal_mods) != sorted(a._internal_mods):
+        a._unsorted = True
     return a
 
 
@@ -120,7 +151,12 @@ def run(chk):
     # ------------------------------------------------------------------ corpus (replayed first)
     corpus = []
     for c in load_corpus():
-        corpus.append((c['op'], annot.dump(pp.parse(c['seq'])), c['size']))
+        ca = pp.parse(c['seq'])
+        for h in c.get('history', []):
+            ca = getattr(ca, h[0])(*h[1:])
+        if 'internal_order' in c:
+            ca._internal_mods = {k: ca._internal_mods[k] for k in c['internal_order']}
+        corpus.append((c['op'], annot.dump(ca, sort_internal=False), c['size']))
     # ------------------------------------------------------------------ correspondence: the four expansions
     n_ann = 90 if tier == 'quick' else 320
     anns = []
@@ -132,7 +168,9 @@ def run(chk):
     cases = []
     for a in anns:
         n = len(a)
-        d = annot.dump(a)
+        d = annot.dump(a, sort_internal=False)
+        if getattr(a, '_unsorted', False):
+            chk.count('internal_dict_not_in_position_order')
         chk.count('len=%d' % n)
         chk.count('modified_residues=%d' % (len(a._internal_mods) if a._internal_mods else 0))
         for k in sizes_for(n):
@@ -165,7 +203,7 @@ def run(chk):
                        nontrivial_fn=lambda c, im: im.count('~') >= 1 and ('D' in im or '|L' in im))
 
     # split() on full annotations without intervals (labile to the first piece, terminals only on the end pieces)
-    sp = [annot.dump(gen_case(rng, 6)) for _ in range(300 if tier == 'quick' else 6000)]
+    sp = [annot.dump(gen_case(rng, 6), sort_internal=False) for _ in range(300 if tier == 'quick' else 6000)]
     chk.correspond('split', DRV, sp, lambda d: f'split\t{d}',
                    lambda d: '~'.join(annot.dump(x) for x in annot.undump(d).split()),
                    compare=cmp_, nontrivial_fn=lambda d, im: im.count('~') >= 1)
@@ -195,9 +233,25 @@ def run(chk):
         kk = n if k is None else k
         src = a.copy()
         res = getattr(src, impl_fn(op))(k)
-        # Python's own itertools over the modified residues (split pieces of the residue part)
-        core_a = pp.ProFormaAnnotation(_sequence=a._sequence, _internal_mods=a.copy()._internal_mods)
-        pieces = list(core_a.split())
+        # the modified residues, read straight from the fields (position -> own mods) ...
+        own = [((a._internal_mods or {}).get(i) or None) for i in range(n)]
+        # ... and the same through split(): every piece is its residue with exactly its own mods
+        pieces = list(a.copy().split())
+        if len(pieces) != n:
+            return f'split() gives {len(pieces)} pieces for {n} residues'
+        for i, pc in enumerate(pieces):
+            got = ((pc._internal_mods or {}).get(0) or None)
+            if pc._sequence != a._sequence[i] or annot.show_opt_mods(got) != annot.show_opt_mods(own[i]) or \
+                    any(k != 0 for k in (pc._internal_mods or {})):
+                return f'split() piece {i} is {annot.dump(pc)}, residue {i} carries {own[i]}'
+            if annot.show_opt_mods(pc._labile_mods) != annot.show_opt_mods((a._labile_mods or None) if i == 0 else None):
+                return f'split() piece {i} labile mods {pc._labile_mods}'
+            if annot.show_opt_mods(pc._nterm_mods) != annot.show_opt_mods(a._nterm_mods if i == 0 else None) or \
+                    annot.show_opt_mods(pc._cterm_mods) != annot.show_opt_mods(a._cterm_mods if i == n - 1 else None):
+                return f'split() piece {i} terminal mods {pc._nterm_mods} / {pc._cterm_mods}'
+        # Python's own itertools over the components written out independently of split()/slice()/serialize()
+        comps = [a._sequence[i] + ''.join(('[%s]' % m.val) + ('^%d' % m.mult if m.mult > 1 else '') for m in (own[i] or []))
+                 for i in range(n)]
         sel = list(it_fn(op)(list(range(n)), kk))
         if len(res) != len(sel):
             return f'{len(res)} results, itertools yields {len(sel)}'
@@ -209,7 +263,7 @@ def run(chk):
             if r._sequence != ''.join(a._sequence[i] for i in idx):
                 return f'result sequence {r._sequence} != selected residues {idx}'
             for pos, i in enumerate(idx):
-                want = pieces[i]._internal_mods.get(0) if pieces[i]._internal_mods else None
+                want = own[i]
                 got = r._internal_mods.get(pos) if r._internal_mods else None
                 if annot.show_opt_mods(want) != annot.show_opt_mods(got):
                     return f'result {annot.dump(r)}: residue {pos} carries {got}, source residue {i} carries {want}'
@@ -231,8 +285,14 @@ def run(chk):
                 return f'result {s!r} does not parse: {type(e).__name__}: {e}'
             if not isinstance(back, pp.ProFormaAnnotation) or annot.dump(back) != annot.dump(r):
                 return f'result {s!r} re-parses to a different annotation'
-        # the string-level API agrees
+        # the string-level API agrees, and is start + components + end for itertools over the components
+        start, end = a.serialize_start(), a.serialize_end()
+        exp_strs = [start + ''.join(c) + end for c in it_fn(op)(comps, kk)]
         strs = getattr(pt, impl_fn(op))(a.copy(), k)
+        if strs != exp_strs:
+            bad = next((i for i, (x, y) in enumerate(zip(strs, exp_strs)) if x != y), min(len(strs), len(exp_strs)))
+            return f'result {bad}: {strs[bad] if bad < len(strs) else None!r}, itertools over the modified residues gives ' \
+                   f'{exp_strs[bad] if bad < len(exp_strs) else None!r}'
         if strs != [r.serialize() for r in res]:
             return 'peptacular.%s(annotation) differs from the annotation method' % impl_fn(op)
         if a._intervals is None and getattr(pt, impl_fn(op))(a.serialize(), k) != strs:
